@@ -229,7 +229,10 @@ def gen_early_cfg(rng):
             k += cnt
         items.append(row)
     return {'nsup': m, 'ncons': 1, 'qcap': rng.choice([0, 0, 2, 3]), 'rounds': rounds, 'items': items,
-            'late_iter': [rng.random() < 0.6 for _ in range(rounds)], 'early_put': [rng.random() < 0.7 for _ in range(rounds)]}
+            'late_iter': [rng.random() < 0.6 for _ in range(rounds)], 'early_put': [rng.random() < 0.7 for _ in range(rounds)],
+            # the suppliers of the next round start as soon as this round's suppliers have ended - before its consumer has
+            # finished (the put_end docstring allows it); known finding C17-E on the unchanged tree
+            'early_before': [rng.random() < 0.25 for _ in range(rounds)]}
 
 
 def run_early(cfg, strategy, max_steps=40000):
@@ -279,28 +282,39 @@ def run_early(cfg, strategy, max_steps=40000):
                 sup_threads = [threading.Thread(target=supplier, args=(s,), name=f'sup-{s}-r{r}') for s in range(m)]
                 for t in sup_threads:
                     t.start()
+            errors2 = []
+
+            def supplier2(s, r2=r + 1, errors2=errors2):
+                try:
+                    for x in cfg['items'][r2][s]:
+                        iq.put(x)
+                    iq.put_end(wait_for_renew=True)
+                except detsched.Abort:
+                    raise
+                except BaseException as e:  # noqa
+                    errors2.append(f'supplier {s}: {e!r}'[:120])
+
+            next_threads = None
+            if r + 1 < cfg['rounds'] and cfg.get('early_before', [False] * cfg['rounds'])[r]:
+                # this round's suppliers have ended; the next round's start at once, before this round's consumer has finished
+                for t in sup_threads:
+                    t.join()
+                next_threads = [threading.Thread(target=supplier2, args=(s,), name=f'sup-{s}-r{r + 1}') for s in range(m)]
+                for t in next_threads:
+                    t.start()
             tc = threading.Thread(target=consumer, name=f'con-r{r}')
             tc.start()
             tc.join()
             for t in sup_threads:
                 t.join()
-            sup_threads = None
+            sup_threads = next_threads
             info = {'got': got, 'errors': errors, 'late': None}
+            if next_threads is not None:
+                info['next_errors'] = errors2
             res['rounds'].append(info)
             if r + 1 < cfg['rounds']:
-                if cfg['early_put'][r]:
+                if cfg['early_put'][r] and sup_threads is None:
                     # the suppliers of the next round start before renew(): their items wait in the queue
-                    errors2 = []
-
-                    def supplier2(s, r2=r + 1, errors2=errors2):
-                        try:
-                            for x in cfg['items'][r2][s]:
-                                iq.put(x)
-                            iq.put_end(wait_for_renew=True)
-                        except detsched.Abort:
-                            raise
-                        except BaseException as e:  # noqa
-                            errors2.append(f'supplier {s}: {e!r}'[:120])
                     sup_threads = [threading.Thread(target=supplier2, args=(s,), name=f'sup-{s}-r{r + 1}') for s in range(m)]
                     info['next_errors'] = errors2
                     for t in sup_threads:
